@@ -47,6 +47,12 @@ def check(run):
         run.rule('ORD.cmp', 'every comparator handed to sort / select_nth in the order-statistic '
                  'kernels is the null-last comparator, the descending one exactly on the reverse arms')
         C12.comparators(run, F)
+        # ranks are taken among the valid elements only: the percentile arm divides by the valid count
+        # on every tie path, and nulls (sorted last) receive null
+        for r_ in ('NULL.first-test', 'RANK.arms'):
+            run.rule(r_, 'as in C12: structure of vrank (a null inserted into the series changes no rank of a '
+                         'valid element: every divisor of the pct arm is the valid count)')
+        C12.rank(run, F)
         # nulls never enter a rolling accumulator; two-series kernels delete pairwise
         for k in find_kernels(F):
             if not k.custom:
